@@ -243,4 +243,43 @@ Proof.
     + eapply R4; eauto.
 Qed.
 
+(* the same inside a run: the cone of a Clean memo below the running frames is consistent *)
+Lemma clean_consistent_stk stk t s : Inv stk t s ->
+  forall j, j < t -> memob j = true -> st (getn s j) = Clean -> ConsistentM s j.
+Proof.
+  intros I j. induction j as [j IH] using lt_wf_ind. intros Hjt Hm Hc.
+  assert (Hni : ~ In j stk).
+  { intros Hin. destruct (inv_frame _ _ _ _ I j Hin) as (_&_&_&F4&_). lia. }
+  destruct (inv_rest _ _ _ _ I j Hni) as (R1 & R2 & R3 & R4 & _).
+  destruct (memob_decl p j Hm) as (cm & e & Hd).
+  unfold uncached_ok, GraphInvariant.needs_cur, GraphInvariant.needs_clean in *. rewrite Hd in *.
+  cbn [needs_cur_n needs_clean_n] in *.
+  assert (Hcn : cache (getn s j) <> None).
+  { intros E. destruct (R2 E). congruence. }
+  constructor; auto.
+  intros x vx Hx.
+  assert (Hxj : x < j).
+  { eapply wf_srclt; [apply I|]. rewrite R1. apply in_tracked_of; eauto. }
+  split.
+  - apply R3; auto. split; auto. congruence.
+  - intros Hmx. apply IH; auto; [lia|]. eapply R4; eauto.
+Qed.
+
+(* every value read during any run (of a memo or an effect body) is, at that moment, cached in
+   a Clean memo with a consistent cone, or is the signal's current value: no glitch *)
+Theorem read_in_run_consistent m c j s stk t s' v :
+  Inv stk t s -> ctx_ok stk c -> TopOK c s -> j < t -> j < length p -> effb j = false ->
+  read_any p m c j s = (s', v) ->
+  Inv stk t s' /\
+  (memob j = true -> cache (getn s' j) = Some v /\ ConsistentM s' j) /\
+  (sigb j = true -> v = sval (getn s' j)).
+Proof.
+  intros I C T Hjt Hjl He Hr. unfold read_any in Hr.
+  destruct (lvl_spec p wfp (N p)) as [_ HR].
+  destruct (HR m c j s stk t s' v Hjl Hjt He I C T Hr) as (I' & _ & _ & Hm & Hs).
+  split; auto. split; auto.
+  intros Hmj. destruct (Hm Hmj) as [Hc Hca]. split; auto.
+  apply (clean_consistent_stk stk t s' I' j Hjt Hmj Hc).
+Qed.
+
 End P.
